@@ -102,3 +102,73 @@ func (c *Ctx) CMAC(msg []byte) (t [16]byte) {
 	c.blk.Encrypt(t[:], t[:])
 	return
 }
+
+// DataParams are the inputs of the LoRaWAN data-frame MIC besides the message (LoRaWAN 1.1 section 4.4).
+type DataParams struct {
+	Uplink  bool
+	V11     bool // LoRaWAN 1.1 composition (else 1.0)
+	ACK     bool // ACK bit of the frame: ConfFCnt is only used with it (and only in 1.1)
+	Conf    uint32
+	TxDR    uint8
+	TxCh    uint8
+	FKey    [16]byte // FNwkSIntKey / NwkSKey (uplink)
+	SKey    [16]byte // SNwkSIntKey (downlink; cmacS half of a 1.1 uplink)
+	DevAddr [4]byte  // most significant byte first
+	FCnt    uint32
+}
+
+func (d DataParams) block(first [5]byte, dir byte, msgLen int) []byte {
+	x := make([]byte, 16)
+	copy(x, first[:])
+	x[5] = dir
+	for i := 0; i < 4; i++ {
+		x[6+i] = d.DevAddr[3-i]
+	}
+	x[10], x[11], x[12], x[13] = byte(d.FCnt), byte(d.FCnt>>8), byte(d.FCnt>>16), byte(d.FCnt>>24)
+	x[15] = byte(msgLen)
+	return x
+}
+
+// ForgeData returns the last 16 bytes of msg (MHDR | FHDR | FPort | FRMPayload, 16 + len(msg) a multiple of 16) that
+// make the data-frame MIC equal to want; head = msg without its last 16 bytes. 1.0 and downlink: direct. 1.1 uplink
+// (cmacS[0:2] | cmacF[0:2]): cmacS by inversion, free tag bytes varied until cmacF fits (about 2^16 trials).
+func ForgeData(d DataParams, head []byte, want [4]byte, rnd func() uint64) (last [16]byte, ok bool) {
+	msgLen := len(head) + 16
+	c16 := uint16(0)
+	if d.ACK && d.V11 {
+		c16 = uint16(d.Conf)
+	}
+	var tag [16]byte
+	copy(tag[:4], want[:])
+	fill := func(t *[16]byte, from int) {
+		for i := from; i < 16; i += 8 {
+			x := rnd()
+			for j := 0; j < 8 && i+j < 16; j++ {
+				t[i+j] = byte(x >> (8 * uint(j)))
+			}
+		}
+	}
+	switch {
+	case !d.Uplink:
+		fill(&tag, 4)
+		c := New(d.SKey)
+		return c.LastBlock(c.State(append(d.block([5]byte{0x49, byte(c16), byte(c16 >> 8)}, 1, msgLen), head...)), tag), true
+	case !d.V11:
+		fill(&tag, 4)
+		c := New(d.FKey)
+		return c.LastBlock(c.State(append(d.block([5]byte{0x49}, 0, msgLen), head...)), tag), true
+	}
+	cs, cf := New(d.SKey), New(d.FKey)
+	ss := cs.State(append(d.block([5]byte{0x49, byte(c16), byte(c16 >> 8), d.TxDR, d.TxCh}, 0, msgLen), head...))
+	sf := cf.State(append(d.block([5]byte{0x49}, 0, msgLen), head...))
+	for i := 0; i < 4000000; i++ {
+		fill(&tag, 2)
+		tag[0], tag[1] = want[0], want[1]
+		last = cs.LastBlock(ss, tag)
+		t := cf.TagAligned(sf, last)
+		if t[0] == want[2] && t[1] == want[3] {
+			return last, true
+		}
+	}
+	return last, false
+}
